@@ -25,6 +25,7 @@ BadSplit(e) ==
       multi == Len(parts) > 1
       \* the unit stream: computed from the text for the fully specified codings, observed otherwise
       u == IF FullySpecified(kind) THEN UnitStream(kind, e.text)
+           ELSE IF e.err THEN e.rawenc       \* refused: the unit stream as the single-coding codec gives it
            ELSE IF multi THEN ConcatPayloads(parts, 1) ELSE IF Len(parts) = 1 THEN parts[1] ELSE <<>>
       wkind == IF kind = "gsm7p" THEN "gsm7u" ELSE kind
       greedy == GreedyCount(wkind, u)
